@@ -19,6 +19,7 @@ RULE = ("base cases: single call on a fresh FunctorPool / FactoryFunctorPool (no
         "{1,last,(random)}) with a 150 ms delay injected there (every one-preemption schedule at statement "
         "granularity of consumer, SendWorkThread, ReplaceWorkerThread and worker code), plus random 2-3 delay "
         "combinations and runs with forced GIL hand-offs. evaluations = executions whose yield history was checked; "
+        "Also: data items that are lists (default chunk size), array-like containers with an ambiguous / false truth value, equal-but-different twin items and exception objects as results, results and data items larger than a pipe buffer, functors of 6 s per item. "
         "distinct_nontrivial = distinct (base case, set of thread-switch pairs observed, plan size).")
 ASSUMPTIONS = [
     "functors return normally; generators are fully consumed (the property's precondition)",
